@@ -432,3 +432,75 @@ Proof.
     rewrite filter_app. simpl. destruct (part_of (route_key (fst a)) pnum =? p); simpl; now rewrite IH, ?app_nil_r. }
   rewrite H. apply (kv_get_filter (fun x => part_of (route_key x) pnum =? p)). apply N.eqb_refl.
 Qed.
+
+(* ---------- MGET: served by the owner of every key with the single-store values, or rejected ---------- *)
+Lemma kv_get_pstore pnum s p k :
+  part_of (route_key k) pnum = p -> kv_get k (kv_pstore pnum s p) = kv_get k s.
+Proof.
+  intros Hp. unfold kv_pstore.
+  pose proof (kv_get_filter (fun x => part_of (route_key x) pnum =? p) k s []) as H.
+  rewrite !app_nil_r in H. apply H. now apply N.eqb_eq.
+Qed.
+
+Theorem mget_route_owner pnum ks p :
+  mget_route pnum ks = Some p -> ks <> [] /\ forall k, In k ks -> part_of (route_key k) pnum = p.
+Proof.
+  destruct ks as [|k0 r]; simpl; [discriminate|].
+  destruct (forallb _ r) eqn:E; [|discriminate].
+  intros H; injection H as <-. split; [discriminate|].
+  intros k [<-|Hin]; [reflexivity|].
+  rewrite forallb_forall in E. now apply N.eqb_eq, E.
+Qed.
+
+Theorem mget_route_none pnum ks :
+  mget_route pnum ks = None <->
+  ks = [] \/ exists k0 r k, ks = k0 :: r /\ In k r /\ part_of (route_key k) pnum <> part_of (route_key k0) pnum.
+Proof.
+  destruct ks as [|k0 r]; simpl.
+  - split; [now left|reflexivity].
+  - destruct (forallb _ r) eqn:E.
+    + split; [discriminate|]. intros [H|(k0' & r' & k & Heq & Hin & Hne)]; [discriminate|].
+      injection Heq as <- <-. rewrite forallb_forall in E. apply E in Hin. apply N.eqb_eq in Hin. contradiction.
+    + split; [|reflexivity]. intros _. right.
+      assert (Hex : exists k, In k r /\ (part_of (route_key k) pnum =? part_of (route_key k0) pnum) = false).
+      { clear -E. induction r as [|a r IH]; simpl in E; [discriminate|].
+        destruct (part_of (route_key a) pnum =? part_of (route_key k0) pnum) eqn:Ea.
+        - destruct (IH E) as (k & Hin & Hk). exists k. split; [now right|exact Hk].
+        - exists a. split; [now left|exact Ea]. }
+      destruct Hex as (k & Hin & Hk). exists k0, r, k. repeat split; [exact Hin|]. now apply N.eqb_neq.
+Qed.
+
+Theorem mget_reply_single_store pnum ks s vs :
+  mget_reply pnum ks s = Some vs -> vs = map (fun k => kv_get k s) ks.
+Proof.
+  unfold mget_reply. destruct (mget_route pnum ks) as [p|] eqn:E; [|discriminate].
+  intros H; injection H as <-. apply mget_route_owner in E as [_ Hown].
+  apply map_ext_in. intros k Hin. apply kv_get_pstore, Hown, Hin.
+Qed.
+
+(* ---------- merged commands under the per-partition size limit: the single-store count or an error ---------- *)
+Theorem merged_exists_lim_eq lim pnum ks s c :
+  merged_exists_lim lim pnum ks s = Some c -> c = exists_keys ks s.
+Proof.
+  unfold merged_exists_lim. destruct (merged_over_limit lim pnum ks); [discriminate|].
+  intros H; injection H as <-. apply merged_exists_eq.
+Qed.
+Theorem merged_del_lim_eq lim pnum ks s c :
+  merged_del_lim lim pnum ks s = Some c -> c = fst (del_keys ks s).
+Proof.
+  unfold merged_del_lim. destruct (merged_over_limit lim pnum ks); [discriminate|].
+  intros H; injection H as <-. apply merged_del_eq.
+Qed.
+Theorem merged_lim_error_iff lim pnum ks s :
+  merged_exists_lim lim pnum ks s = None <->
+  exists p l, In (p, l) (group_keys pnum ks) /\ (lim < length l)%nat.
+Proof.
+  unfold merged_exists_lim, merged_over_limit.
+  destruct (existsb _ (group_keys pnum ks)) eqn:E.
+  - split; [|reflexivity]. intros _. apply existsb_exists in E as ([p l] & Hin & Hlt).
+    exists p, l. split; [exact Hin|]. now apply Nat.ltb_lt.
+  - split; [discriminate|]. intros (p & l & Hin & Hlt).
+    assert (H : existsb (fun e : N * list bytes => Nat.ltb lim (length (snd e))) (group_keys pnum ks) = true).
+    { apply existsb_exists. exists (p, l). split; [exact Hin|]. now apply Nat.ltb_lt. }
+    congruence.
+Qed.
